@@ -1,7 +1,12 @@
 import Uft.Model.Events
+import Uft.Lemmas.Mcount
 /- helper lemmas for Props/C17 -/
+set_option linter.unusedSimpArgs false
+set_option linter.unusedVariables false
 namespace Uft.Events
 open Uft.Mcount
+
+/-! ### takeAsync -/
 
 theorem takeAsync_append (p : List Ev) (ts : Nat) :
     (takeAsync p ts).1 ++ (takeAsync p ts).2 = p := by
@@ -12,5 +17,793 @@ theorem takeAsync_append (p : List Ev) (ts : Nat) :
     split
     · simp [ih]
     · simp
+
+@[simp] theorem takeAsync_nil (ts : Nat) : takeAsync [] ts = ([], []) := rfl
+
+theorem takeAsync_all (p : List Ev) (ts : Nat) (h : ∀ e ∈ p, e.time < ts) :
+    takeAsync p ts = (p, []) := by
+  induction p with
+  | nil => rfl
+  | cons e r ih =>
+    have he := h e (by simp)
+    have hr := ih (fun x hx => h x (by simp [hx]))
+    simp [takeAsync, he, hr]
+
+theorem takeAsync_written_lt (p : List Ev) (ts : Nat) : ∀ e ∈ (takeAsync p ts).1, e.time < ts := by
+  induction p with
+  | nil => simp
+  | cons e r ih =>
+    simp only [takeAsync]
+    split
+    · rename_i h
+      intro x hx
+      simp only [List.mem_cons] at hx
+      rcases hx with rfl | hx
+      · exact h
+      · exact ih x hx
+    · simp
+
+/-! ### save_trigger_read: what it leaves alone, and the events it adds -/
+
+theorem saveReadOne_b (off now midx : Nat) (diff : Bool) (o : Obs) (mask : Nat) (f : EFrame) (src : ReadSrc) :
+    (saveReadOne off now midx diff o mask f src).b = f.b ∧
+    (saveReadOne off now midx diff o mask f src).argFl = f.argFl ∧
+    (saveReadOne off now midx diff o mask f src).argSz = f.argSz ∧
+    (saveReadOne off now midx diff o mask f src).retFl = f.retFl ∧
+    (saveReadOne off now midx diff o mask f src).readFl = f.readFl := by
+  unfold saveReadOne
+  split
+  · simp
+  · split
+    · simp
+    · split <;> simp
+
+theorem saveReadL_b (off now midx : Nat) (diff : Bool) (o : Obs) (mask : Nat) (srcs : List ReadSrc) :
+    ∀ f : EFrame,
+    (saveReadL off now midx diff o mask srcs f).b = f.b ∧
+    (saveReadL off now midx diff o mask srcs f).argFl = f.argFl ∧
+    (saveReadL off now midx diff o mask srcs f).argSz = f.argSz ∧
+    (saveReadL off now midx diff o mask srcs f).retFl = f.retFl ∧
+    (saveReadL off now midx diff o mask srcs f).readFl = f.readFl := by
+  induction srcs with
+  | nil => intro f; simp [saveReadL]
+  | cons s r ih =>
+    intro f
+    simp only [saveReadL]
+    have h1 := saveReadOne_b off now midx diff o mask f s
+    have h2 := ih (saveReadOne off now midx diff o mask f s)
+    refine ⟨h2.1.trans h1.1, h2.2.1.trans h1.2.1, h2.2.2.1.trans h1.2.2.1, h2.2.2.2.1.trans h1.2.2.2.1,
+      h2.2.2.2.2.trans h1.2.2.2.2⟩
+
+theorem saveRead_b (cfg : ECfg) (f : EFrame) (mask midx : Nat) (diff : Bool) (o : Obs) :
+    (saveRead cfg f mask midx diff o).b = f.b ∧
+    (saveRead cfg f mask midx diff o).argFl = f.argFl ∧
+    (saveRead cfg f mask midx diff o).argSz = f.argSz ∧
+    (saveRead cfg f mask midx diff o).retFl = f.retFl ∧
+    (saveRead cfg f mask midx diff o).readFl = f.readFl :=
+  saveReadL_b _ _ _ _ _ _ _ f
+
+theorem mkReadEv_time (f : EFrame) (now midx : Nat) (diff : Bool) (src : ReadSrc) (v : List Nat) :
+    (mkReadEv f now midx diff src v).time = now := by
+  unfold mkReadEv
+  split <;> rfl
+
+theorem saveReadOne_evs (off now midx : Nat) (diff : Bool) (o : Obs) (mask : Nat) (f : EFrame) (src : ReadSrc) :
+    ∃ new, (saveReadOne off now midx diff o mask f src).evs = new ++ f.evs ∧ ∀ e ∈ new, e.time = now := by
+  unfold saveReadOne
+  split
+  · exact ⟨[], by simp⟩
+  · split
+    · exact ⟨[], by simp⟩
+    · split
+      · exact ⟨[], by simp⟩
+      · rename_i v _
+        exact ⟨[mkReadEv f now midx diff src v], by simp [mkReadEv_time]⟩
+
+theorem saveReadL_evs (off now midx : Nat) (diff : Bool) (o : Obs) (mask : Nat) (srcs : List ReadSrc) :
+    ∀ f : EFrame, ∃ new, (saveReadL off now midx diff o mask srcs f).evs = new ++ f.evs ∧
+      ∀ e ∈ new, e.time = now := by
+  induction srcs with
+  | nil => intro f; exact ⟨[], by simp [saveReadL]⟩
+  | cons s r ih =>
+    intro f
+    obtain ⟨n1, h1, t1⟩ := saveReadOne_evs off now midx diff o mask f s
+    obtain ⟨n2, h2, t2⟩ := ih (saveReadOne off now midx diff o mask f s)
+    refine ⟨n2 ++ n1, ?_, ?_⟩
+    · simp only [saveReadL]; rw [h2, h1]; simp
+    · intro e he
+      simp only [List.mem_append] at he
+      rcases he with he | he
+      · exact t2 e he
+      · exact t1 e he
+
+/-- the events a hook adds to a frame's area all carry the hook's time -/
+theorem saveRead_evs (cfg : ECfg) (f : EFrame) (mask midx : Nat) (diff : Bool) (o : Obs) :
+    ∃ new, (saveRead cfg f mask midx diff o).evs = new ++ f.evs ∧ ∀ e ∈ new, e.time = hookTime f.b :=
+  saveReadL_evs _ _ _ _ _ _ _ f
+
+/-! ### frames: owed ENTRY records, written marks -/
+
+/-- ENTRY records (with their read events) still owed for the open frames -/
+def pendingE : List EFrame → List Out
+  | [] => []
+  | f :: r => if f.b.written then [] else pendingE r ++ ([entryOut f] ++ (entryEvs f).map .event)
+
+def markToE : List EFrame → List EFrame
+  | [] => []
+  | f :: r => if f.b.written then f :: r else setWritten f :: markToE r
+
+def NoSkipE (fs : List EFrame) : Prop := ∀ f ∈ fs, f.b.norecord = false ∧ f.b.disabled = false
+
+@[simp] theorem setWritten_b_written (f : EFrame) : (setWritten f).b.written = true := rfl
+
+theorem flushBelowE_noskip (fs : List EFrame) (h : NoSkipE fs) :
+    flushBelowE fs [] = (markToE fs, [], pendingE fs) := by
+  induction fs with
+  | nil => rfl
+  | cons f r ih =>
+    have hf := h f (by simp)
+    have hr : NoSkipE r := fun g hg => h g (by simp [hg])
+    simp only [flushBelowE, markToE, pendingE]
+    split
+    · rfl
+    · simp [Frame.skip, hf.1, hf.2, ih hr, recEntry]
+
+theorem pendingE_markToE (fs : List EFrame) : pendingE (markToE fs) = [] := by
+  cases fs with
+  | nil => rfl
+  | cons f r =>
+    simp only [markToE]
+    split
+    · rename_i h; simp [pendingE, h]
+    · simp [pendingE]
+
+theorem markToE_markToE (fs : List EFrame) : markToE (markToE fs) = markToE fs := by
+  cases fs with
+  | nil => rfl
+  | cons f r =>
+    simp only [markToE]
+    split
+    · rename_i h; simp [markToE, h]
+    · simp [markToE]
+
+theorem markToE_length (fs : List EFrame) : (markToE fs).length = fs.length := by
+  induction fs with
+  | nil => rfl
+  | cons f r ih => simp only [markToE]; split <;> simp [ih]
+
+theorem markToE_noskip (fs : List EFrame) (h : NoSkipE fs) : NoSkipE (markToE fs) := by
+  induction fs with
+  | nil => exact h
+  | cons f r ih =>
+    have hf := h f (by simp)
+    have hr : NoSkipE r := fun g hg => h g (by simp [hg])
+    simp only [markToE]
+    split
+    · exact h
+    · intro g hg
+      simp only [List.mem_cons] at hg
+      rcases hg with rfl | hg
+      · simpa [setWritten] using hf
+      · exact ih hr g hg
+
+
+/-! ### hooks without filters and without watchpoints -/
+
+/-- no filter, trigger or threshold in the underlying hook configuration; read triggers,
+    arguments and return values are free; no watchpoints -/
+structure PlainE (cfg : ECfg) : Prop where
+  plain : Plain cfg.base
+  nocpu : cfg.watchCpu = false
+  novars : cfg.varSizes = []
+
+/-- the thread state between hooks, at nesting depth `d`, when nothing is filtered and no
+    asynchronous event is pending -/
+structure GoodE (s : ESt) (d : Nat) : Prop where
+  over : s.over = 0
+  len : s.frames.length = d
+  ridx : s.recordIdx = d
+  en : s.enabled = true
+  inc : s.filt.inCount = 0
+  outc : s.filt.outCount = 0
+  fdepth : s.filt.depth = d
+  fmax : s.filt.maxDepth = noMaxDepth
+  ftime : s.filt.time = noTime
+  fsize : s.filt.size = 0
+  noskip : NoSkipE s.frames
+  pend : s.pend = []
+
+/-- the frame the entry hook pushes for a call of `f` at depth `d` before save_argument /
+    save_trigger_read -/
+def freshFrame (cfg : ECfg) (k : Kind) (f t0 d : Nat) : EFrame :=
+  { b := plainFrame k f t0 d, retFl := (k == .pg) && (cfg.retSize f).isSome }
+
+/-- … and after them -/
+def entryFrame (cfg : ECfg) (k : Kind) (f t0 d : Nat) (o : Obs) : EFrame :=
+  entryArea cfg (freshFrame cfg k f t0 d) true (k == .pg) (d + 1) o
+
+@[simp] theorem setEnd_endT (F : EFrame) (t : Nat) : (setEnd F t).b.endT = t := rfl
+@[simp] theorem setEnd_start (F : EFrame) (t : Nat) : (setEnd F t).b.start = F.b.start := rfl
+@[simp] theorem setEnd_addr (F : EFrame) (t : Nat) : (setEnd F t).b.addr = F.b.addr := rfl
+@[simp] theorem setEnd_depth (F : EFrame) (t : Nat) : (setEnd F t).b.depth = F.b.depth := rfl
+@[simp] theorem setEnd_cyg (F : EFrame) (t : Nat) : (setEnd F t).b.cyg = F.b.cyg := rfl
+@[simp] theorem setEnd_norecord (F : EFrame) (t : Nat) : (setEnd F t).b.norecord = F.b.norecord := rfl
+@[simp] theorem setEnd_disabled (F : EFrame) (t : Nat) : (setEnd F t).b.disabled = F.b.disabled := rfl
+@[simp] theorem setEnd_filtered (F : EFrame) (t : Nat) : (setEnd F t).b.filtered = F.b.filtered := rfl
+@[simp] theorem setEnd_notrace (F : EFrame) (t : Nat) : (setEnd F t).b.notrace = F.b.notrace := rfl
+@[simp] theorem setEnd_trace (F : EFrame) (t : Nat) : (setEnd F t).b.trace = F.b.trace := rfl
+@[simp] theorem setEnd_caller (F : EFrame) (t : Nat) : (setEnd F t).b.caller = F.b.caller := rfl
+@[simp] theorem setEnd_written (F : EFrame) (t : Nat) : (setEnd F t).b.written = F.b.written := rfl
+@[simp] theorem setEnd_sDepth (F : EFrame) (t : Nat) : (setEnd F t).b.sDepth = F.b.sDepth := rfl
+@[simp] theorem setEnd_sMaxDepth (F : EFrame) (t : Nat) : (setEnd F t).b.sMaxDepth = F.b.sMaxDepth := rfl
+@[simp] theorem setEnd_sTime (F : EFrame) (t : Nat) : (setEnd F t).b.sTime = F.b.sTime := rfl
+@[simp] theorem setEnd_sSize (F : EFrame) (t : Nat) : (setEnd F t).b.sSize = F.b.sSize := rfl
+@[simp] theorem setEnd_evs (F : EFrame) (t : Nat) : (setEnd F t).evs = F.evs := rfl
+@[simp] theorem setEnd_retFl (F : EFrame) (t : Nat) : (setEnd F t).retFl = F.retFl := rfl
+@[simp] theorem setEnd_readFl (F : EFrame) (t : Nat) : (setEnd F t).readFl = F.readFl := rfl
+@[simp] theorem setEnd_argFl (F : EFrame) (t : Nat) : (setEnd F t).argFl = F.argFl := rfl
+@[simp] theorem setEnd_argSz (F : EFrame) (t : Nat) : (setEnd F t).argSz = F.argSz := rfl
+
+/-- the same frame after the exit hook's save_trigger_read -/
+def exitFrame (cfg : ECfg) (F : EFrame) (t1 d : Nat) (o : Obs) : EFrame :=
+  exitArea cfg (setEnd F t1) (d + 1) o
+
+theorem saveArgument_b (cfg : ECfg) (f : EFrame) :
+    (saveArgument cfg f).b = f.b ∧ (saveArgument cfg f).evs = f.evs ∧ (saveArgument cfg f).retFl = f.retFl ∧
+    (saveArgument cfg f).readFl = f.readFl := by
+  unfold saveArgument
+  split
+  · split <;> simp
+  · simp
+
+theorem entryArea_b (cfg : ECfg) (f : EFrame) (matched argok : Bool) (midx : Nat) (o : Obs) :
+    (entryArea cfg f matched argok midx o).b = f.b := by
+  unfold entryArea
+  cases argok <;> simp <;> split <;> simp [setReadFl, (saveRead_b _ _ _ _ _ _).1, (saveArgument_b _ _).1]
+
+theorem entryE_plain (cfg : ECfg) (hp : PlainE cfg) (k : Kind) (s : ESt) (d f t0 : Nat) (o : Obs)
+    (hg : GoodE s d) (hm : d < cfg.base.maxStack) (hd : d < cfg.base.depthOpt) :
+    (entryE cfg k s f t0 o).2 = true ∧
+    (entryE cfg k s f t0 o).1.out = s.out ∧
+    (entryE cfg k s f t0 o).1.frames = entryFrame cfg k f t0 d o :: s.frames ∧
+    GoodE (entryE cfg k s f t0 o).1 (d + 1) := by
+  obtain ⟨h1, h2, h3, h4, h5, h6, h7, h8, h9, h10, h11, h12⟩ := hg
+  have hidx : ¬ (s.idx ≥ cfg.base.maxStack) := by simp [ESt.idx, h1, h2]; omega
+  have hnd : ¬ (d ≥ cfg.base.depthOpt) := by omega
+  have hw : cfg.watch = false := by simp [ECfg.watch, hp.nocpu, hp.novars]
+  cases k <;>
+  simp [entryE, entryFilterCheckE, checkRstackE, hidx, hp.plain.optIn, hp.plain.locIn, hp.plain.trig,
+    saveFilt, matchFilt, earlyOut, trigFilt, depthLimit, trigEnabled,
+    entryFilterRecordE, entryEvents, hw, hasAsync, h3, h4, h5, h6, h7, h8, h9, h10, h12, hnd, entryFrame, freshFrame,
+    plainFrame, h2]
+  all_goals refine ⟨by simp [show (Kind.pg == Kind.cyg) = false from rfl, show (Kind.cyg == Kind.pg) = false from rfl], ?_⟩
+  all_goals (constructor <;> simp_all [NoSkipE, entryArea_b])
+
+
+/-! ### the exit hook -/
+
+def withW (F : EFrame) (w : Bool) : EFrame := { F with b := { F.b with written := w } }
+
+@[simp] theorem withW_b_written (F : EFrame) (w : Bool) : (withW F w).b.written = w := rfl
+@[simp] theorem withW_evs (F : EFrame) (w : Bool) : (withW F w).evs = F.evs := rfl
+@[simp] theorem withW_retFl (F : EFrame) (w : Bool) : (withW F w).retFl = F.retFl := rfl
+@[simp] theorem withW_readFl (F : EFrame) (w : Bool) : (withW F w).readFl = F.readFl := rfl
+@[simp] theorem withW_argFl (F : EFrame) (w : Bool) : (withW F w).argFl = F.argFl := rfl
+@[simp] theorem withW_argSz (F : EFrame) (w : Bool) : (withW F w).argSz = F.argSz := rfl
+@[simp] theorem withW_eventIdx (F : EFrame) (w : Bool) : (withW F w).eventIdx = F.eventIdx := rfl
+@[simp] theorem withW_addr (F : EFrame) (w : Bool) : (withW F w).b.addr = F.b.addr := rfl
+@[simp] theorem withW_start (F : EFrame) (w : Bool) : (withW F w).b.start = F.b.start := rfl
+@[simp] theorem withW_endT (F : EFrame) (w : Bool) : (withW F w).b.endT = F.b.endT := rfl
+@[simp] theorem withW_withW (F : EFrame) (w v : Bool) : withW (withW F w) v = withW F v := rfl
+theorem setWritten_eq (F : EFrame) : setWritten F = withW F true := rfl
+theorem setEnd_withW (F : EFrame) (w : Bool) (t : Nat) : setEnd (withW F w) t = withW (setEnd F t) w := rfl
+
+theorem withW_self (F : EFrame) (w : Bool) (h : F.b.written = w) : withW F w = F := by
+  cases F with
+  | mk b evs ei af asz rf rdf =>
+    cases b
+    simp_all [withW]
+
+@[simp] theorem entryOut_withW (F : EFrame) (w : Bool) : entryOut (withW F w) = entryOut F := rfl
+@[simp] theorem entryEvs_withW (F : EFrame) (w : Bool) : entryEvs (withW F w) = entryEvs F := rfl
+@[simp] theorem exitEvs_withW (F : EFrame) (w : Bool) : exitEvs (withW F w) = exitEvs F := rfl
+@[simp] theorem hookTime_withW (F : EFrame) (w : Bool) : hookTime (withW F w).b = hookTime F.b := rfl
+@[simp] theorem argDataOff_withW (cfg : ECfg) (F : EFrame) (w : Bool) (p : Nat) :
+    argDataOff cfg (withW F w) p = argDataOff cfg F p := rfl
+
+theorem saveReadOne_withW (off now midx : Nat) (diff : Bool) (o : Obs) (mask : Nat) (f : EFrame) (src : ReadSrc)
+    (w : Bool) :
+    saveReadOne off now midx diff o mask (withW f w) src = withW (saveReadOne off now midx diff o mask f src) w := by
+  unfold saveReadOne
+  simp only [withW_eventIdx]
+  by_cases h1 : (mask &&& src.bit == 0) = true
+  · simp [h1]
+  · by_cases h2 : f.eventIdx < src.evsize + off
+    · simp [h1, h2]
+    · cases h3 : o.reads src.bit with
+      | none => simp [h1, h2, h3]
+      | some v => simp only [h1, h2, h3]; rfl
+
+theorem saveReadL_withW (off now midx : Nat) (diff : Bool) (o : Obs) (mask : Nat) (srcs : List ReadSrc) (w : Bool) :
+    ∀ f : EFrame, saveReadL off now midx diff o mask srcs (withW f w) =
+      withW (saveReadL off now midx diff o mask srcs f) w := by
+  induction srcs with
+  | nil => intro f; rfl
+  | cons s r ih => intro f; simp only [saveReadL, saveReadOne_withW, ih]
+
+theorem exitArea_withW (cfg : ECfg) (F : EFrame) (w : Bool) (n : Nat) (o : Obs) :
+    exitArea cfg (withW F w) n o = withW (exitArea cfg F n o) w := by
+  unfold exitArea
+  simp only [withW_readFl]
+  by_cases h : F.readFl = true
+  · simp only [h, ↓reduceIte, saveRead, argDataOff_withW, hookTime_withW, withW_addr, saveReadL_withW]
+  · simp [h]
+
+
+theorem exitArea_b (cfg : ECfg) (F : EFrame) (n : Nat) (o : Obs) :
+    (exitArea cfg F n o).b = F.b ∧ (exitArea cfg F n o).argFl = F.argFl ∧ (exitArea cfg F n o).argSz = F.argSz ∧
+    (exitArea cfg F n o).retFl = F.retFl := by
+  unfold exitArea
+  split
+  · have h := saveRead_b cfg F (cfg.read F.b.addr) n true o
+    exact ⟨h.1, h.2.1, h.2.2.1, h.2.2.2.1⟩
+  · simp
+
+theorem exitArea_evs (cfg : ECfg) (F : EFrame) (n : Nat) (o : Obs) :
+    ∃ new, (exitArea cfg F n o).evs = new ++ F.evs ∧ ∀ e ∈ new, e.time = hookTime F.b := by
+  unfold exitArea
+  split
+  · exact saveRead_evs cfg F _ n true o
+  · exact ⟨[], by simp⟩
+
+theorem hookTime_setEnd (F : EFrame) (t1 : Nat) (h : t1 ≠ 0) : hookTime (setEnd F t1).b = t1 := by
+  simp [hookTime, h]
+
+theorem takeWhile_all {α : Type} (p : α → Bool) (l : List α) (h : ∀ a ∈ l, p a = true) : l.takeWhile p = l := by
+  induction l with
+  | nil => rfl
+  | cons a r ih => simp [List.takeWhile, h a (by simp), ih (fun x hx => h x (by simp [hx]))]
+
+theorem entryEvs_of_all (F : EFrame) (hev : ∀ e ∈ F.evs, e.time = F.b.start) : entryEvs F = F.evs.reverse := by
+  unfold entryEvs
+  apply takeWhile_all
+  intro e he
+  simp only [List.mem_reverse] at he
+  simp [hev e he]
+
+theorem entryEvs_exitFrame (cfg : ECfg) (F : EFrame) (t1 d : Nat) (o : Obs)
+    (hev : ∀ e ∈ F.evs, e.time = F.b.start) (ht : F.b.start ≠ t1) (ht1 : t1 ≠ 0) :
+    entryEvs (exitFrame cfg F t1 d o) = F.evs.reverse := by
+  obtain ⟨new, h1, h2⟩ := exitArea_evs cfg (setEnd F t1) (d + 1) o
+  have hb := (exitArea_b cfg (setEnd F t1) (d + 1) o).1
+  unfold entryEvs exitFrame
+  rw [h1, hb]
+  simp only [List.reverse_append, setEnd_start, setEnd_evs]
+  rw [List.takeWhile_append_of_pos]
+  · have : List.takeWhile (fun e => e.time == F.b.start) new.reverse = [] := by
+      cases hn : new.reverse with
+      | nil => rfl
+      | cons a r =>
+        have ha : a ∈ new := by
+          have : a ∈ new.reverse := by rw [hn]; simp
+          simpa using this
+        have := h2 a ha
+        rw [hookTime_setEnd F t1 ht1] at this
+        have hne : (t1 == F.b.start) = false := by simp; omega
+        simp [List.takeWhile, this, hne]
+    simp [this]
+  · intro e he
+    simp only [List.mem_reverse] at he
+    simp [hev e he]
+
+
+/-- record_trace_data for a top frame that has returned, nothing pending, no skipped frame below -/
+theorem recordTraceE_exit (cfg : ECfg) (retv : Bool) (top : EFrame) (rest : List EFrame)
+    (hns : NoSkipE rest) (hnr : top.b.norecord = false) (hdis : top.b.disabled = false) (hend : top.b.endT ≠ 0) :
+    (recordTraceE cfg retv (top :: rest) []).2.2 =
+      (if top.b.written then [] else pendingE rest ++ ([entryOut top] ++ (entryEvs top).map .event)) ++
+        ((exitEvs top).map .event ++ [.record (exitRec top.b) (retPayload cfg retv top)]) ∧
+    (recordTraceE cfg retv (top :: rest) []).2.1 = [] ∧
+    (recordTraceE cfg retv (top :: rest) []).1.tail = (if top.b.written then rest else markToE rest) := by
+  have hfb := flushBelowE_noskip rest hns
+  have he : (top.b.endT != 0) = true := by simp [hend]
+  cases hw : top.b.written <;>
+  simp [recordTraceE, hw, hfb, Frame.skip, hnr, hdis, he, recEntry, recExit]
+
+/-- what the exit hook writes for the frame `F` (its ENTRY still owed iff `w = false`) -/
+def exitOut (cfg : ECfg) (F : EFrame) (t1 d : Nat) (o : Obs) : List Out :=
+  (exitEvs (exitFrame cfg F t1 d o)).map .event ++
+    [.record (exitRec (exitFrame cfg F t1 d o).b) (retPayload cfg (!F.b.cyg && F.retFl) (exitFrame cfg F t1 d o))]
+
+
+/-- the exit hook of a recorded frame without filters: one record_trace_data call -/
+theorem exitE_unfold (cfg : ECfg) (hp : PlainE cfg) (s2 : ESt) (top : EFrame) (rest : List EFrame) (t1 : Nat) (o : Obs)
+    (hfr : s2.frames = top :: rest) (hover : s2.over = 0) (hnr : top.b.norecord = false)
+    (hen : s2.enabled = true) (hft : s2.filt.time = noTime) (hdur : t1 - top.b.start > 0) (hpend : s2.pend = []) :
+    exitE cfg s2 t1 o =
+      { s2 with
+        filt := { s2.filt with
+          inCount := if top.b.filtered then s2.filt.inCount - 1 else s2.filt.inCount,
+          outCount := if !top.b.filtered && top.b.notrace then s2.filt.outCount - 1 else s2.filt.outCount,
+          depth := top.b.sDepth, maxDepth := top.b.sMaxDepth, time := top.b.sTime, size := top.b.sSize },
+        recordIdx := s2.recordIdx - 1,
+        frames := (recordTraceE cfg (!top.b.cyg && top.retFl)
+          (exitArea cfg (setEnd top t1) (rest.length + 1) o :: rest) []).1.tail,
+        pend := (recordTraceE cfg (!top.b.cyg && top.retFl)
+          (exitArea cfg (setEnd top t1) (rest.length + 1) o :: rest) []).2.1,
+        out := s2.out ++ (recordTraceE cfg (!top.b.cyg && top.retFl)
+          (exitArea cfg (setEnd top t1) (rest.length + 1) o :: rest) []).2.2 } := by
+  have hwt : cfg.watch = false := by simp [ECfg.watch, hp.nocpu, hp.novars]
+  have hxb := (exitArea_b cfg (setEnd top t1) (rest.length + 1) o).1
+  simp [exitE, hover, hfr, hnr, exitFilterRecordE, exitEvents, hwt, hft, hp.plain.thr, hp.plain.caller, hen, hpend,
+    ESt.recorded, hdur]
+
+
+theorem exitE_plain (cfg : ECfg) (hp : PlainE cfg) (k : Kind) (s2 : ESt) (d f t0 t1 : Nat) (w : Bool) (F : EFrame)
+    (rest : List EFrame) (o : Obs)
+    (hb : F.b = plainFrame k f t0 d) (hev : ∀ e ∈ F.evs, e.time = t0)
+    (hfr : s2.frames = withW F w :: rest)
+    (hg : GoodE s2 (d + 1)) (ht : t0 < t1)
+    (hw : w = true → markToE rest = rest) :
+    (exitE cfg s2 t1 o).out =
+      s2.out ++ (if w then [] else pendingE rest ++ ([entryOut F] ++ (entryEvs F).map .event)) ++
+        exitOut cfg F t1 d o ∧
+    (exitE cfg s2 t1 o).frames = markToE rest ∧
+    GoodE (exitE cfg s2 t1 o) d := by
+  obtain ⟨h1, h2, h3, h4, h5, h6, h7, h8, h9, h10, h11, h12⟩ := hg
+  have hrest : NoSkipE rest := fun g hg => h11 g (by simp [hfr, hg])
+  have hlen : rest.length = d := by simpa [hfr] using h2
+  have ht2 : ¬ t1 = 0 := by omega
+  have hst : F.b.start = t0 := by rw [hb]; rfl
+  have hev' : ∀ e ∈ F.evs, e.time = F.b.start := by rw [hst]; exact hev
+  have hEE := entryEvs_exitFrame cfg F t1 d o hev' (by omega) ht2
+  have hEF := entryEvs_of_all F hev'
+  have hnr : (withW F w).b.norecord = false := by simp [withW, hb, plainFrame]
+  have hdis : (withW F w).b.disabled = false := by simp [withW, hb, plainFrame]
+  have hdur : t1 - (withW F w).b.start > 0 := by simp [hst]; omega
+  have hu := exitE_unfold cfg hp s2 (withW F w) rest t1 o hfr h1 hnr h4 h9 hdur h12
+  -- the frame record_trace_data sees
+  have hX : exitArea cfg (setEnd (withW F w) t1) (rest.length + 1) o = withW (exitFrame cfg F t1 d o) w := by
+    rw [setEnd_withW, exitArea_withW, hlen]; rfl
+  rw [hX] at hu
+  have hXb := exitArea_b cfg (setEnd F t1) (d + 1) o
+  have hXnr : (withW (exitFrame cfg F t1 d o) w).b.norecord = false := by
+    simp [withW, exitFrame, hXb.1, hb, plainFrame]
+  have hXdis : (withW (exitFrame cfg F t1 d o) w).b.disabled = false := by
+    simp [withW, exitFrame, hXb.1, hb, plainFrame]
+  have hXend : (withW (exitFrame cfg F t1 d o) w).b.endT ≠ 0 := by
+    simp [withW, exitFrame, hXb.1, ht2]
+  simp only [show (withW F w).b.cyg = F.b.cyg from rfl, withW_retFl] at hu
+  obtain ⟨r1, r2, r3⟩ := recordTraceE_exit cfg (!F.b.cyg && F.retFl)
+    (withW (exitFrame cfg F t1 d o) w) rest hrest hXnr hXdis hXend
+  have hmm : (if w = true then rest else markToE rest) = markToE rest := by
+    cases w
+    · rfl
+    · simp [hw rfl]
+  have hEO : entryOut (exitFrame cfg F t1 d o) = entryOut F := by
+    simp [entryOut, exitFrame, hXb.1, hXb.2.1, hXb.2.2.1, entryRec]
+  have hRP : retPayload cfg (!F.b.cyg && F.retFl) (withW (exitFrame cfg F t1 d o) w) =
+      retPayload cfg (!F.b.cyg && F.retFl) (exitFrame cfg F t1 d o) := rfl
+  have hER : exitRec (withW (exitFrame cfg F t1 d o) w).b = exitRec (exitFrame cfg F t1 d o).b := rfl
+  refine ⟨?_, ?_, ?_⟩
+  · rw [hu]
+    simp only [r1, withW_b_written, entryOut_withW, entryEvs_withW, exitEvs_withW, hEO, hEE, hEF,
+      hRP, hER, exitOut]
+    cases w <;> simp
+  · rw [hu]
+    simp only [r3, withW_b_written]
+    exact hmm
+  · rw [hu]
+    have r3' : (recordTraceE cfg (!F.b.cyg && F.retFl) (withW (exitFrame cfg F t1 d o) w :: rest) []).1.tail =
+        markToE rest := by rw [r3]; simp only [withW_b_written]; exact hmm
+    constructor <;> simp only [r2, r3'] <;>
+      simp_all [withW, plainFrame, noMaxDepth, noTime, markToE_length, markToE_noskip]
+
+
+/-! ### the specified stream of a call history (no watchpoints, no asynchronous events) -/
+
+theorem entryFrame_b (cfg : ECfg) (k : Kind) (f t0 d : Nat) (o : Obs) :
+    (entryFrame cfg k f t0 d o).b = plainFrame k f t0 d := by
+  simp [entryFrame, entryArea_b, freshFrame]
+
+theorem entryFrame_evs_time (cfg : ECfg) (k : Kind) (f t0 d : Nat) (o : Obs) :
+    ∀ e ∈ (entryFrame cfg k f t0 d o).evs, e.time = t0 := by
+  unfold entryFrame entryArea
+  have hsa : ∀ g : EFrame, (saveArgument cfg g).evs = g.evs := fun g => (saveArgument_b cfg g).2.1
+  have hsb : ∀ g : EFrame, (saveArgument cfg g).b = g.b := fun g => (saveArgument_b cfg g).1
+  have hfe : (freshFrame cfg k f t0 d).evs = [] := rfl
+  have hft : hookTime (freshFrame cfg k f t0 d).b = t0 := by simp [hookTime, freshFrame, plainFrame]
+  cases hk : (k == Kind.pg) <;> simp only [↓reduceIte, Bool.false_eq_true] <;> split
+  · obtain ⟨new, h1, h2⟩ := saveRead_evs cfg (freshFrame cfg k f t0 d) (cfg.read (freshFrame cfg k f t0 d).b.addr) (d + 1) false o
+    intro e he
+    simp only [setReadFl] at he
+    rw [h1, hfe] at he
+    simp only [List.append_nil] at he
+    rw [h2 e he, hft]
+  · simp [hfe]
+  · obtain ⟨new, h1, h2⟩ := saveRead_evs cfg (saveArgument cfg (freshFrame cfg k f t0 d))
+      (cfg.read (freshFrame cfg k f t0 d).b.addr) (d + 1) false o
+    intro e he
+    simp only [setReadFl] at he
+    rw [h1, hsa, hfe] at he
+    simp only [List.append_nil] at he
+    rw [h2 e he, hsb, hft]
+  · simp [hsa, hfe]
+
+mutual
+  def ECall.height : ECall → Nat
+    | .node _ _ _ _ _ kids => kids.height + 1
+  def ECalls.height : ECalls → Nat
+    | .nil => 0
+    | .cons c rest => max c.height rest.height
+end
+
+mutual
+  /-- every call takes measurable time on the clock (t0 < t1) -/
+  def ECall.timed : ECall → Prop
+    | .node _ t0 t1 _ _ kids => t0 < t1 ∧ kids.timed
+  def ECalls.timed : ECalls → Prop
+    | .nil => True
+    | .cons c rest => c.timed ∧ rest.timed
+end
+
+mutual
+  /-- the stream the property specifies for a call executed at nesting depth `d`:
+      ENTRY (with its argument payload), the read events of the entry hook, the callees,
+      the events of the exit hook, EXIT (with the return value payload) -/
+  def specCall (cfg : ECfg) (k : Kind) (d : Nat) : ECall → List Out
+    | .node f t0 t1 oE oX kids =>
+      ([entryOut (entryFrame cfg k f t0 d oE)] ++ (entryEvs (entryFrame cfg k f t0 d oE)).map .event) ++
+        specCalls cfg k (d + 1) kids ++ exitOut cfg (entryFrame cfg k f t0 d oE) t1 d oX
+  def specCalls (cfg : ECfg) (k : Kind) (d : Nat) : ECalls → List Out
+    | .nil => []
+    | .cons c rest => specCall cfg k d c ++ specCalls cfg k d rest
+end
+
+theorem pendingE_cons_unwritten (F : EFrame) (fs : List EFrame) (h : F.b.written = false) :
+    pendingE (F :: fs) = pendingE fs ++ ([entryOut F] ++ (entryEvs F).map .event) := by
+  simp [pendingE, h]
+
+theorem markToE_cons_unwritten (F : EFrame) (fs : List EFrame) (h : F.b.written = false) :
+    markToE (F :: fs) = withW F true :: markToE fs := by
+  simp [markToE, h, setWritten_eq]
+
+mutual
+theorem emitE_call (cfg : ECfg) (hp : PlainE cfg) (k : Kind) :
+    ∀ (c : ECall) (s : ESt) (d : Nat), GoodE s d → d + c.height ≤ cfg.base.maxStack →
+      d + c.height ≤ cfg.base.depthOpt → c.timed →
+      (runECall cfg k s c).out = s.out ++ pendingE s.frames ++ specCall cfg k d c ∧
+      (runECall cfg k s c).frames = markToE s.frames ∧
+      GoodE (runECall cfg k s c) d
+  | .node f t0 t1 oE oX kids, s, d, hg, hm, hd, ht => by
+    simp only [ECall.height] at hm hd
+    simp only [ECall.timed] at ht
+    obtain ⟨e1, e2, e3, e4⟩ := entryE_plain cfg hp k s d f t0 oE hg (by omega) (by omega)
+    have hk := emitE_calls cfg hp k kids (entryE cfg k s f t0 oE).1 (d + 1) e4 (by omega) (by omega) ht.2
+    have hFb := entryFrame_b cfg k f t0 d oE
+    have hFev := entryFrame_evs_time cfg k f t0 d oE
+    have hFw : (entryFrame cfg k f t0 d oE).b.written = false := by rw [hFb]; rfl
+    simp only [runECall, e1, ↓reduceIte]
+    cases kids with
+    | nil =>
+      simp only [runECalls]
+      obtain ⟨x1, x2, x3⟩ := exitE_plain cfg hp k (entryE cfg k s f t0 oE).1 d f t0 t1 false
+        (entryFrame cfg k f t0 d oE) s.frames oX hFb hFev
+        (by rw [e3, withW_self _ _ hFw]) e4 ht.1 (by simp)
+      refine ⟨?_, x2, x3⟩
+      rw [x1, e2]
+      simp [specCall, specCalls]
+    | cons c rest =>
+      obtain ⟨k1, k2, k3⟩ := hk
+      simp only at k1 k2
+      rw [e3, markToE_cons_unwritten _ _ hFw] at k2
+      rw [e3, pendingE_cons_unwritten _ _ hFw, e2] at k1
+      obtain ⟨x1, x2, x3⟩ := exitE_plain cfg hp k
+        (runECalls cfg k (entryE cfg k s f t0 oE).1 (.cons c rest)) d f t0 t1 true
+        (entryFrame cfg k f t0 d oE) (markToE s.frames) oX hFb hFev k2 k3 ht.1 (fun _ => markToE_markToE _)
+      refine ⟨?_, by rw [x2, markToE_markToE], x3⟩
+      rw [x1, k1]
+      simp [specCall]
+theorem emitE_calls (cfg : ECfg) (hp : PlainE cfg) (k : Kind) :
+    ∀ (cs : ECalls) (s : ESt) (d : Nat), GoodE s d → d + cs.height ≤ cfg.base.maxStack →
+      d + cs.height ≤ cfg.base.depthOpt → cs.timed →
+      (runECalls cfg k s cs).out =
+        s.out ++ (match cs with | .nil => [] | .cons _ _ => pendingE s.frames) ++ specCalls cfg k d cs ∧
+      (runECalls cfg k s cs).frames = (match cs with | .nil => s.frames | .cons _ _ => markToE s.frames) ∧
+      GoodE (runECalls cfg k s cs) d
+  | .nil, s, d, hg, _, _, _ => by simp [runECalls, specCalls, hg]
+  | .cons c rest, s, d, hg, hm, hd, ht => by
+    simp only [ECalls.height] at hm hd
+    simp only [ECalls.timed] at ht
+    obtain ⟨c1, c2, c3⟩ := emitE_call cfg hp k c s d hg (by omega) (by omega) ht.1
+    obtain ⟨r1, r2, r3⟩ := emitE_calls cfg hp k rest (runECall cfg k s c) d c3 (by omega) (by omega) ht.2
+    simp only [runECalls]
+    refine ⟨?_, ?_, r3⟩
+    · rw [r1, c1]
+      cases rest with
+      | nil => simp [specCalls]
+      | cons c' r' => simp [specCalls, c2, pendingE_markToE]
+    · rw [r2]
+      cases rest with
+      | nil => simp [c2]
+      | cons c' r' => simp [c2, markToE_markToE]
+end
+
+
+/-! ### values: what the read events of the entry hook hold, and what the exit hook's events are made from -/
+
+/-- the ids of a source table do not collide -/
+def DistinctIds (srcs : List ReadSrc) : Prop :=
+  (srcs.map (·.idRead)).Nodup ∧ ∀ s ∈ srcs, ∀ s' ∈ srcs, s.idDiff ≠ s'.idRead
+
+theorem readEvents_distinct : DistinctIds readEvents := by
+  constructor
+  · decide
+  · decide
+
+/-- an event that holds the reading `o` gave for its source -/
+def HoldsReading (o : Obs) (tbl : List ReadSrc) (e : Ev) : Prop :=
+  ∃ s ∈ tbl, ∃ v, o.reads s.bit = some v ∧ e.id = s.idRead ∧ e.data = v.map (· % u64)
+
+/-- Lemma B: every event of the entry hook is a READ event holding the reading of its source -/
+theorem saveReadL_entry_events (off now midx : Nat) (o : Obs) (mask : Nat) (tbl srcs : List ReadSrc) :
+    (∀ x ∈ srcs, x ∈ tbl) → ∀ f : EFrame, (∀ e ∈ f.evs, HoldsReading o tbl e) →
+      ∀ e ∈ (saveReadL off now midx false o mask srcs f).evs, HoldsReading o tbl e := by
+  induction srcs with
+  | nil => intro _ f h; simpa [saveReadL] using h
+  | cons s r ih =>
+    intro hsub f h
+    simp only [saveReadL]
+    apply ih (fun x hx => hsub x (by simp [hx]))
+    intro e' he'
+    unfold saveReadOne at he'
+    split at he'
+    · exact h e' he'
+    · split at he'
+      · exact h e' he'
+      · split at he'
+        · exact h e' he'
+        · rename_i v hv
+          simp only [List.mem_cons] at he'
+          rcases he' with rfl | he'
+          · exact ⟨s, hsub s (by simp), v, hv, by simp [mkReadEv], by simp [mkReadEv]⟩
+          · exact h e' he'
+
+
+/-- what an event of the exit hook is made from: the reading `o` gave for its source and, if the
+    frame already held a READ event of that source (`base`), the difference to that one -/
+def FromExit (o : Obs) (tbl : List ReadSrc) (base : List Ev) (e : Ev) : Prop :=
+  ∃ s ∈ tbl, ∃ vX, o.reads s.bit = some vX ∧
+    match base.find? (fun x => x.id == s.idRead) with
+    | some old => e.id = s.idDiff ∧ e.data = zipSub vX old.data
+    | none => e.id = s.idRead ∧ e.data = vX.map (· % u64)
+
+theorem find_pre_none (pre : List Ev) (id : Nat) (h : ∀ e ∈ pre, e.id ≠ id) :
+    pre.find? (fun x => x.id == id) = none := by
+  apply List.find?_eq_none.mpr
+  intro x hx
+  simp [h x hx]
+
+theorem saveReadOne_cases (off now midx : Nat) (diff : Bool) (o : Obs) (mask : Nat) (f : EFrame) (s : ReadSrc) :
+    saveReadOne off now midx diff o mask f s = f ∨
+    ∃ v, o.reads s.bit = some v ∧ ¬ (f.eventIdx < s.evsize + off) ∧ (mask &&& s.bit == 0) = false ∧
+      (saveReadOne off now midx diff o mask f s).evs = mkReadEv f now midx diff s v :: f.evs ∧
+      (saveReadOne off now midx diff o mask f s).eventIdx = f.eventIdx - s.evsize := by
+  unfold saveReadOne
+  by_cases h1 : (mask &&& s.bit == 0) = true
+  · left; simp [h1]
+  · by_cases h2 : f.eventIdx < s.evsize + off
+    · left; simp [h1, h2]
+    · cases h3 : o.reads s.bit with
+      | none => left; simp [h1, h2, h3]
+      | some v => right; exact ⟨v, rfl, h2, by simpa using h1, by simp [h1, h2, h3], by simp [h1, h2, h3]⟩
+
+/-- Lemma A: the exit hook's loop -/
+theorem saveReadL_exit_events (off now midx : Nat) (o : Obs) (mask : Nat) (tbl : List ReadSrc) (base : List Ev)
+    (srcs : List ReadSrc) :
+    (∀ x ∈ srcs, x ∈ tbl) → (srcs.map (·.idRead)).Nodup → (∀ s ∈ srcs, ∀ s' ∈ srcs, s.idDiff ≠ s'.idRead) →
+    ∀ (f : EFrame) (pre : List Ev), f.evs = pre ++ base → (∀ e ∈ pre, ∀ s ∈ srcs, e.id ≠ s.idRead) →
+      (∀ e ∈ pre, FromExit o tbl base e) →
+      ∃ new, (saveReadL off now midx true o mask srcs f).evs = new ++ base ∧ ∀ e ∈ new, FromExit o tbl base e := by
+  induction srcs with
+  | nil => intro _ _ _ f pre h1 _ h3; exact ⟨pre, by simpa [saveReadL] using h1, h3⟩
+  | cons s r ih =>
+    intro hsub hnd hdr f pre hf hpre hfrom
+    simp only [saveReadL]
+    have hsub' : ∀ x ∈ r, x ∈ tbl := fun x hx => hsub x (by simp [hx])
+    have hnd2 : s.idRead ∉ r.map (·.idRead) ∧ (r.map (·.idRead)).Nodup := by
+      have := hnd
+      simp only [List.map_cons] at this
+      exact List.nodup_cons.mp this
+    have hnd' := hnd2.2
+    have hsr : ∀ s' ∈ r, s.idRead ≠ s'.idRead := by
+      intro s' hs' heq
+      exact hnd2.1 (List.mem_map.mpr ⟨s', hs', heq.symm⟩)
+    have hdr' : ∀ a ∈ r, ∀ b ∈ r, a.idDiff ≠ b.idRead :=
+      fun a ha b hb => hdr a (by simp [ha]) b (by simp [hb])
+    have hpre' : ∀ e ∈ pre, ∀ s' ∈ r, e.id ≠ s'.idRead := fun e he s' hs' => hpre e he s' (by simp [hs'])
+    rcases saveReadOne_cases off now midx true o mask f s with h | ⟨v, hv, _, _, hevs, _⟩
+    · rw [h]; exact ih hsub' hnd' hdr' f pre hf hpre' hfrom
+    · have hfind : f.evs.find? (fun x => x.id == s.idRead) = base.find? (fun x => x.id == s.idRead) := by
+        rw [hf, List.find?_append, find_pre_none pre s.idRead (fun e he => hpre e he s (by simp))]
+        simp
+      have he0 : FromExit o tbl base (mkReadEv f now midx true s v) := by
+        refine ⟨s, hsub s (by simp), v, hv, ?_⟩
+        unfold mkReadEv
+        simp only [↓reduceIte, hfind]
+        cases base.find? (fun x => x.id == s.idRead) <;> simp
+      have hid : ∀ s' ∈ r, (mkReadEv f now midx true s v).id ≠ s'.idRead := by
+        intro s' hs'
+        unfold mkReadEv
+        split
+        · exact hdr s (by simp) s' (by simp [hs'])
+        · exact hsr s' hs'
+      apply ih hsub' hnd' hdr' _ (mkReadEv f now midx true s v :: pre)
+      · simp [hevs, hf]
+      · intro e he
+        simp only [List.mem_cons] at he
+        rcases he with rfl | he
+        · exact hid
+        · exact hpre' e he
+      · intro e he
+        simp only [List.mem_cons] at he
+        rcases he with rfl | he
+        · exact he0
+        · exact hfrom e he
+
+
+theorem entryFrame_holds (cfg : ECfg) (k : Kind) (f t0 d : Nat) (o : Obs) :
+    ∀ e ∈ (entryFrame cfg k f t0 d o).evs, HoldsReading o readEvents e := by
+  unfold entryFrame entryArea
+  have hsa : ∀ g : EFrame, (saveArgument cfg g).evs = g.evs := fun g => (saveArgument_b cfg g).2.1
+  have hfe : (freshFrame cfg k f t0 d).evs = [] := rfl
+  cases hk : (k == Kind.pg) <;> simp only [↓reduceIte, Bool.false_eq_true] <;> split
+  · simp only [setReadFl, saveRead]
+    exact saveReadL_entry_events _ _ _ o _ readEvents readEvents (fun x hx => hx) _ (by simp [hfe])
+  · simp [hfe]
+  · simp only [setReadFl, saveRead]
+    exact saveReadL_entry_events _ _ _ o _ readEvents readEvents (fun x hx => hx) _ (by simp [hsa, hfe])
+  · simp [hsa, hfe]
+
+/-- the events the exit hook adds to the frame `F`, oldest first, are what is written before EXIT -/
+theorem exitFrame_events (cfg : ECfg) (F : EFrame) (t1 d : Nat) (o : Obs)
+    (hev : ∀ e ∈ F.evs, e.time = F.b.start) (ht : F.b.start ≠ t1) (ht1 : t1 ≠ 0) :
+    ∃ new, (exitFrame cfg F t1 d o).evs = new ++ F.evs ∧ (∀ e ∈ new, e.time = t1) ∧
+      (∀ e ∈ new, FromExit o readEvents F.evs e) ∧
+      exitEvs (exitFrame cfg F t1 d o) = new.reverse := by
+  have hb := (exitArea_b cfg (setEnd F t1) (d + 1) o).1
+  have hex : ∃ new, (exitFrame cfg F t1 d o).evs = new ++ F.evs ∧ (∀ e ∈ new, e.time = t1) ∧
+      (∀ e ∈ new, FromExit o readEvents F.evs e) := by
+    unfold exitFrame exitArea
+    split
+    · obtain ⟨n1, h1, h2⟩ := saveRead_evs cfg (setEnd F t1) (cfg.read (setEnd F t1).b.addr) (d + 1) true o
+      obtain ⟨n2, h3, h4⟩ := saveReadL_exit_events (argDataOff cfg (setEnd F t1) o.probe) (hookTime (setEnd F t1).b)
+        (d + 1) o (cfg.read (setEnd F t1).b.addr) readEvents F.evs readEvents (fun x hx => hx)
+        readEvents_distinct.1 readEvents_distinct.2 (setEnd F t1) [] (by simp) (by simp) (by simp)
+      have hn : n1 = n2 := by
+        have : n1 ++ F.evs = n2 ++ F.evs := by
+          rw [← setEnd_evs F t1, ← h1, saveRead]; exact h3
+        exact List.append_cancel_right this
+      refine ⟨n1, by rw [h1]; rfl, ?_, by rw [hn]; exact h4⟩
+      intro e he
+      rw [h2 e he, hookTime_setEnd F t1 ht1]
+    · exact ⟨[], by simp, by simp, by simp⟩
+  obtain ⟨new, h1, h2, h3⟩ := hex
+  refine ⟨new, h1, h2, h3, ?_⟩
+  unfold exitEvs
+  have hbe : (exitFrame cfg F t1 d o).b.endT = t1 := by
+    unfold exitFrame; rw [hb]; rfl
+  rw [h1, hbe, List.reverse_append, List.filter_append]
+  have hA : F.evs.reverse.filter (fun e => e.time == t1) = [] := by
+    apply List.filter_eq_nil_iff.mpr
+    intro e he
+    simp only [List.mem_reverse] at he
+    simp [hev e he, ht]
+  have hB : new.reverse.filter (fun e => e.time == t1) = new.reverse := by
+    apply List.filter_eq_self.mpr
+    intro e he
+    simp only [List.mem_reverse] at he
+    simp [h2 e he]
+  rw [hA, hB]; simp
 
 end Uft.Events
